@@ -201,3 +201,27 @@ def coq_nat_list(xs):
 def coq_dag(par, times):
     return "%s %s" % ("[" + "; ".join(coq_nat_list(ps) for ps in par) + "]",
                       "[" + "; ".join("(%d)%%Z" % t for t in times) + "]")
+
+
+EMPTY_TREE = "4b825dc642cb6eb9a060e54bf8d69288fbee4904"
+
+
+def gen_numbers(par, times):
+    """git's generation numbers: topological level (v1) and corrected commit date (v2)"""
+    n = len(par)
+    g1, g2 = [0] * n, [0] * n
+    for i in range(n):
+        g1[i] = 1 + max([g1[p] for p in par[i]] + [0])
+        g2[i] = max([times[i]] + [g2[p] + 1 for p in par[i]])
+    return g1, g2
+
+
+def one_repo(root, par, times, refs=True):
+    """a fresh bare repository holding exactly this DAG (one branch per node when refs)"""
+    r = GitDags(root)
+    r.add(0, par, times)
+    if refs:
+        for i in range(len(par)):
+            r.stream.append(b"reset refs/heads/t%d\nfrom :%d\n\n" % (i, r.marks[(0, i)]))
+    r.flush()
+    return r
